@@ -118,6 +118,19 @@ func checkC17(c *core.Ctx) {
 		}
 		c.Set("largest_fuel_completed", k)
 	}
+	// the scale family (see C01): programs whose size, not nesting, is n; tinyfo judges which it accepts
+	if !c.Expired() && !c.TooManyViolations() {
+		sizes := []int{3, 9, 10, 11, 17, 33}
+		if c.Thorough() {
+			sizes = append(sizes, 65, 101)
+		}
+		var cc []*c01Case
+		for _, k := range fo.ScaleCorpus(sizes) {
+			cc = append(cc, &c01Case{cs: k})
+		}
+		c17RunChunk(c, sc, tiny, fc, foiPath, cc, used, accepted, &mu)
+		c.Set("scale_family_programs", len(cc))
+	}
 	c.Set("by_construct_generated", used)
 	c.Set("by_construct_accepted_by_tinyfo", accepted)
 	var empty []string
